@@ -55,6 +55,8 @@ def to_py(v, st):
             return node
     if isinstance(v, Const):
         return v.obj
+    if isinstance(v, V.Native):
+        return v.obj
     if isinstance(v, Opq):
         raise Unsupported("opaque value in a concrete run")
     return v
@@ -89,6 +91,10 @@ def concrete_run(contract, registry, kwargs, case=None):
             binding[pname] = lift_py(kwargs[pname], st)
         else:
             binding[pname] = fn.defaults[pname]
+    if node.args.vararg is not None:
+        binding[node.args.vararg.arg] = ()
+    if node.args.kwarg is not None:
+        binding[node.args.kwarg.arg] = st.alloc(HDict())
     sid = eng.new_scope(st, dict(binding))
     eng.frames.append(E.Frame(sid, fn, qual))
     try:
@@ -180,7 +186,12 @@ class _IsRewrite(ast.NodeTransformer):
 def eval_clause_py(contract, clause_text, kwargs, result, ghosts, real=None):
     """evaluate a clause under CPython.  With `real` (the record of real_call) parameters denote the passed objects in their
     post-state, old_<p> their deep snapshots, and `is` treats a snapshot object and the passed object it was taken from as the same"""
-    env = dict(specfuncs.PY_GLOBALS)
+    env = {}
+    try:  # module-level names of the function's own module (e.g. `Style`, `TOKENS`), as in the engine's spec evaluation
+        env.update({k: v for k, v in vars(V.real_module(contract.func.split(":")[0])).items() if not k.startswith("__")})
+    except Exception:  # noqa
+        pass
+    env.update(specfuncs.PY_GLOBALS)
     env.update(kwargs)
     code = clause_text
     if real is not None and real.get("old") is not None:
@@ -208,8 +219,10 @@ def eval_clause_py(contract, clause_text, kwargs, result, ghosts, real=None):
 def same_value(a, b):
     if type(a) is not type(b):
         return False
-    if isinstance(a, tuple):
+    if isinstance(a, (tuple, list)):
         return len(a) == len(b) and all(same_value(x, y) for x, y in zip(a, b))
+    if isinstance(a, dict):
+        return list(a) == list(b) and all(same_value(a[k], b[k]) for k in a)
     if isinstance(a, float):
         return a == b or (a != a and b != b)
     import ast as _a
@@ -364,6 +377,8 @@ def concretize(spec, name, vals, top=True):
             for k, vs in spec[2].items():
                 setattr(node, k, concretize(vs, "%s_%s" % (name, k), vals, False))
             return node
+        if tag == "obj" and spec[1] == "ast.expr" and not top:
+            return ast.Name(id=_DEFAULT_OF["str"] or "Xy", ctx=ast.Load())  # an arbitrary expression node: a name
         raise _NoConcrete(tag)
     if isinstance(spec, str) and (spec.startswith("pred") or spec == "obj"):
         raise _NoConcrete(spec)
@@ -374,6 +389,7 @@ def try_replay(contract, registry, case, ob):
     """Turn counter-models into inputs, run engine-concrete and the real function, evaluate the clause."""
     builder = getattr(contract, "witness", None)
     tried = []
+    generic_done = False
     for vals, gvals in candidate_inputs(contract, case, ob)[:6]:
         kwargs_list = []
         base = {}
@@ -391,6 +407,20 @@ def try_replay(contract, registry, case, ob):
                     kwargs_list.append(kw)
             except Exception:
                 pass
+        if not generic_done:
+            # generic witnesses: the case's own parameter spec with ordinary values for every symbolic scalar (a counter-model's strings are
+            # arbitrary - often not even parseable type texts - while the violated clause usually fails for ordinary values too)
+            generic_done = True
+            for defaults in ({"str": "Xy", "int": 2, "bool": True}, {"str": "ab", "int": -1, "bool": False}):
+                saved = dict(_DEFAULT_OF)
+                _DEFAULT_OF.update(defaults)
+                try:
+                    kwargs_list.append({pname: concretize(spec, pname, {}, top=False) for pname, spec in case.params.items()})
+                except _NoConcrete:
+                    pass
+                finally:
+                    _DEFAULT_OF.clear()
+                    _DEFAULT_OF.update(saved)
         for kw in kwargs_list:
             r = replay_one(contract, registry, case, ob, kw)
             tried.append({k: _show(v)[:80] for k, v in kw.items()})
